@@ -23,6 +23,12 @@ def step (st : St) (line : String) : St × List String :=
   | ["hashed", hex, ps] => match parseHex hex, parseInts ps with
     | some bs, some ps => (st, [optInt (hashed bs ps)])
     | _, _ => (st, ["bad-op"])
+  | ["hashed-text", cps, ps] => match parseInts cps, parseInts ps with
+    | some cps, some ps => (st, [optInt (hashedKey (.text (cps.map Int.toNat)) ps)])
+    | _, _ => (st, ["bad-op"])
+  | ["mon-hash-text", cps, ps, r] => match parseInts cps, parseInts ps, r.toInt? with
+    | some cps, some ps, some r => (st, [if hashKeyOk (.text (cps.map Int.toNat)) ps r then "ok" else "fail"])
+    | _, _, _ => (st, ["bad-op"])
   | ["rr-new", ps, start] => match parseInts ps, parseOptNat start with
     | some ps, some start => match setPartitions ps start with
       | some s => ({ st with rr := some s }, ["ok"])
@@ -37,7 +43,7 @@ def step (st : St) (line : String) : St × List String :=
   | ["rr-pick", ps, start] => match st.rr, parseInts ps, parseOptNat start with
     | some s, some ps, some start => match rrPartition s ps start with
       | some (x, s') => ({ st with rr := some s' }, [s!"int {x}"])
-      | none => (st, ["error"])
+      | none => ({ st with rr := some (rrAfterError s ps) }, ["error"])
     | _, _, _ => (st, ["bad-op"])
   | ["mon-hash", hex, ps, r] => match parseHex hex, parseInts ps, r.toInt? with
     | some bs, some ps, some r => (st, [if hashOk bs ps r then "ok" else "fail"])
